@@ -9,14 +9,14 @@ Init == i = 0
 Next == i < Len(Progs) /\ i' = i + 1
 
 SetToSeq(S) == LET RECURSIVE go(_) go(T) == IF T = {} THEN <<>> ELSE LET x == CHOOSE y \in T : TRUE IN <<x>> \o go(T \ {x}) IN go(S)
-Detail(A, B, n) ==
-  [fn |-> n,
-   before |-> IF n \in {A.fns[k].name : k \in DOMAIN A.fns} THEN SkOf(A, FnIndex(A, n)) ELSE <<"(absent)">>,
-   after |-> SkOf(B, FnIndex(B, n))]
+Detail(A, B, j) ==
+  [fn |-> B.fns[j].name,
+   before |-> IF Partner(A, B, j) = 0 THEN <<"(absent)">> ELSE SkOf(A, Partner(A, B, j)),
+   after |-> SkOf(B, j)]
 Report == i > 0 =>
   LET A == Progs[i].ir.lift
       B == Progs[i].ir.anf
-      d == SetToSeq(Reordered(A, B))
+      d == SetToSeq(ReorderedIdx(A, B))
   IN PrintT(<<"ORDER", ToJson([id |-> Progs[i].id, ndiff |-> Len(d), nfuncs |-> Len(B.fns),
                                natoms |-> Len(Flat([k \in DOMAIN A.fns |-> SkOf(A, k)])),
                                diffs |-> [k \in DOMAIN d |-> Detail(A, B, d[k])]])>>)
